@@ -43,7 +43,8 @@ def removeAllOverlaps (s : St Int) : List (Ev Int) → Bool
   | [] => false
   | e :: es =>
     (match e with
-     | .removeAllLock _ => cnt isClaimed s + cnt isSending s > 0 || s.threads.any (fun pc => pc == .remRecv) || s.closed
+     | .removeAllLock t => cnt isClaimed s + cnt isSending s > 0 || s.threads.any (fun pc => pc == .remRecv) ||
+         (s.closed && (List.range s.threads.length).any (fun i => i != t && s.threads[i]? != some .idle))
      | _ => false) ||
     (match step s e with | some s' => removeAllOverlaps s' es | none => false)
 
@@ -84,6 +85,29 @@ where
     | [] => []
     | v :: vs => .call 0 (.addLock v) :: .addLock 0 :: .addSend 0 :: ctorTraceOf vs
 
+/-- free-running stress run: what the clients saw must be explicable by one FIFO order -/
+def stressLine (j : Json) : String :=
+  let lists (k : String) : List (List Int) := (arr j k).toList.map fun g => (g.getArr?.toOption.getD #[]).toList.map toInt
+  let added := lists "added"
+  let got := lists "got"
+  let allAdded := added.foldl (· ++ ·) []
+  let delivered := got.foldl (· ++ ·) []
+  let producerOf (v : Int) : Int := v / 100000
+  -- each consumer sees the values of one producer in the order that producer added them
+  let ordered (g : List Int) : Bool :=
+    added.all fun vs => match vs with
+      | [] => true
+      | v0 :: _ => (g.filter (fun v => producerOf v == producerOf v0)).Pairwise (· < ·) |> decide
+  let spec := firstFail [
+    ("valid-call-panicked", (arr j "panics").size == 0),
+    ("blocked-forever", str j "status" == "done"),
+    ("delivered-twice-or-invented", delivered.all (fun v => allAdded.contains v) && delivered.eraseDups.length == delivered.length),
+    ("value-lost", delivered.length == allAdded.length),
+    ("fifo-order-broken", got.all ordered),
+    ("size-exceeds-capacity", nat j "maxSize" ≤ nat j "cap"),
+    ("observer-saw-impossible-contents", str j "obsBad" == "")]
+  verdict true spec.isNone s!"C04/{spec.getD "ok"}/stress-{str (fld j "prog") "mode"}" ""
+
 end Drv
 
 namespace Drv
@@ -100,6 +124,7 @@ def pipeLine (j : Json) : String :=
     else if op == "split" then (List.range fan).map (fun k => splitSpec fan k 0 input)
     else [input]
   let spec := firstFail [
+    ("helper-not-registered-on-return", !has j "reg" || nat j "reg" == nat j "helpers"),
     ("not-terminated", str j "status" == "done"),
     ("wait-group-not-released", nat j "group" == 0 && int j "group" == 0),
     ("output-not-closed", closedAll),
